@@ -144,3 +144,17 @@ MODULES += [
                                                    "merkletree_batch_avx", "merkletree_batch_avx512", "merkletree",
                                                    "merkletree_batch"]]},
 ]
+
+
+# ---------------------------------------------------------------- heap-mode modules ("heap": class name; tools/tr_heap.py)
+# ntt_goldilocks.cpp / .hpp: pointers are values over one heap (Model/TrHeap.lean), data members are the fields of a generated
+# structure.  Executed against the compiled code through the hand-written driver entry `nttseqg` (lean/Driver/NttG.lean);
+# bridge theorems to the hand model Model/Ntt.lean: Lemmas/BridgeNtt*.lean (DESIGN.NTTGEN.md).
+MODULES += [
+    {"name": "NttGen", "ns": "Gen.NttGen", "ext": True, "heap": "NTT_Goldilocks", "dispatch": False,
+     "imports": ["GoldilocksVerif.Isa.X86", "GoldilocksVerif.Model.Region", TRRT, "GoldilocksVerif.Model.TrHeap",
+                 "GoldilocksVerif.Gen.Scalar"],
+     "roots": [("NTT_Goldilocks", n) for n in ["log2", "intt_idx", "root"]] + [(None, "BR")] +
+              [("NTT_Goldilocks", n) for n in ["NTT_Goldilocks", "~NTT_Goldilocks", "computeR", "reversePermutation", "NTT_iters",
+                                               "NTT", "INTT", "extendPol"]]},
+]
